@@ -432,6 +432,7 @@ def judge_traces(r, binp, files, module, cfg, own, genkw=None):
             scns = [e["scn"] for e in cache[b["file"]].values() if e["scn"].startswith(pre)]
         todo.append((b, ev, scns))
     reported = 0
+    unrepro = []
     for b, ev, scns in todo:
         k = match_known(b["p"], ev, b["r"])
         if k is not None:
@@ -448,8 +449,13 @@ def judge_traces(r, binp, files, module, cfg, own, genkw=None):
             r.violations.append({"reason": b["r"], "replay": path, "event": sev})
             reported += 1
         else:
+            # it only matters whether SOME rejection fails again in a fresh process; one that does not is noted
             r.notes.append("rejection of %s did not reproduce in a fresh process: %s" % (ev["scn"], b["r"]))
-            raise Inconclusive("a rejection did not reproduce: %s %s" % (ev["scn"], b["r"]))
+            unrepro.append("%s %s" % (ev["scn"], b["r"]))
+            if len(unrepro) > 6:
+                break
+    if unrepro and not r.violations:
+        raise Inconclusive("a rejection did not reproduce: " + unrepro[0])
     r.extra["rejected_events_total"] = r.extra.get("rejected_events_total", 0) + total_mine
 
 
